@@ -179,7 +179,7 @@ MatchesTag(M, v) ==
     [] M[1] = "union" -> \E i \in DOMAIN M[2] : MatchesTag(M[2][i], v)
     [] M[1] = "literal" -> \E i \in DOMAIN M[2] :
                              IF M[2][i][1] = "lenum" THEN v = <<"enum", M[2][i][2][2], M[2][i][3]>> ELSE M[2][i] = v
-    [] M[1] \in {"newtype"} -> MatchesTag(M[3], v)
+    [] M[1] \in {"newtype", "alias695"} -> MatchesTag(M[3], v)
     [] M[1] \in {"final", "annotated"} -> MatchesTag(M[2], v)
     [] M[1] \in {"fwd", "tvarc", "tvarb"} -> MatchesTag(M[3], v)
     [] OTHER -> FALSE
@@ -273,6 +273,7 @@ PackB(T, cx, v) ==
     [] T[1] = "opt" -> IF IsNone(v) THEN None ELSE Pack(T[2], cx, v)
     [] T[1] = "union" -> PackMembers(T[2], cx, v, 1)
     [] T[1] = "newtype" -> Pack(T[3], cx, v)
+    [] T[1] = "alias695" -> Pack(T[3], cx, v)          \* <<"alias695", name, T>>: a PEP 695 alias (type Name = T) means T
     \* <<"stype", name, A>>: a user class implementing SerializableType with use_annotations=True whose _serialize() -> A hands out
     \* the wrapped value and whose _deserialize(value: A) wraps it again; a value is <<"sobj", name, x>> with x a value of A.
     \* The library converts what _serialize returns / what _deserialize receives by the annotation A
